@@ -7,7 +7,8 @@ package httpcache
 
 // C10: a response is stored only while fresh, with exactly its remaining freshness lifetime.
 //@ func (*RoundTripper).cacheResponse
-//@   props C10
+//@   props C10 C11
+//@   ensures headerGet(old(resp.Header), "Vary", hver) != "" ==> cset.n == old(cset.n)
 
 // C11: "a result is served from cache only for a request for which a fresh evaluation (... rendered
 // payload ..., presented credential) would yield the same result". The key of the HTTP cache covers
@@ -18,3 +19,15 @@ package httpcache
 //@ func (*RoundTripper).RoundTrip
 //@   props C11
 //@   ensures old(req.Method) != "GET" && old(req.Method) != "HEAD" ==> cget.n == old(cget.n) && cset.n == old(cset.n)
+
+// C11: "... presented credential": the key covers the method and both headers a credential travels
+// in - Authorization and Cookie (forward_cookies of the generic authenticator) - and a response
+// that declares to vary on request headers (Vary), which the key does not cover, is not stored
+// (cacheResponse above).
+//@ func cacheKey
+//@   props C11
+//@   nomaprange Write
+//@   ensures shanew.n > old(shanew.n)
+//@   ensures (exists k int :: old(hw.n) <= k && k < hw.n && hw.arg0[k] == shanew.ret0[old(shanew.n)] && hw.arg1[k] == bytesOf(req.Method))
+//@   ensures headerGet(req.Header, "Authorization", hver) != "" ==> (exists k int :: old(hw.n) <= k && k < hw.n && hw.arg0[k] == shanew.ret0[old(shanew.n)] && hw.arg1[k] == bytesOf(trimSpace(headerGet(req.Header, "Authorization", hver))))
+//@   ensures headerGet(req.Header, "Cookie", hver) != "" ==> (exists k int :: old(hw.n) <= k && k < hw.n && hw.arg0[k] == shanew.ret0[old(shanew.n)] && hw.arg1[k] == bytesOf(trimSpace(headerGet(req.Header, "Cookie", hver))))
